@@ -663,7 +663,13 @@ class BytesNode(Node):
         cls = gettype(self.module_name, self.class_name)
         if cls is bytes:
             return content
-        # a subclass of bytes / bytearray (e.g. numpy.bytes_) takes the data
+        # a subclass of bytes / bytearray (e.g. numpy.bytes_) takes the data;
+        # nothing else is ever called with it
+        if not (isinstance(cls, type) and issubclass(cls, (bytes, bytearray))):
+            raise TypeError(
+                f"Expected a subclass of bytes or bytearray, got {self.module_name}."
+                f"{self.class_name}"
+            )
         return cls(content)
 
     def format(self):
